@@ -67,6 +67,15 @@ func VerifC06Watch() {
 		t.Delete(w, &vobj{id: []byte("abc")})
 		w.Commit()
 	}
+	if vnd.Param("PRESET", 0) == 2 {
+		// five primary keys that share a prefix and differ in the next byte (a radix
+		// node with exactly 5 children: deleting one crosses the node16/node4 threshold)
+		w = d.db.WriteTxn(t)
+		for _, k := range []string{"a1", "a2", "a3", "a4", "a5"} {
+			t.Insert(w, &vobj{id: []byte(k), tags: [][]byte{{'t'}}, pfx: []byte{0x10}, plen: 4})
+		}
+		w.Commit()
+	}
 	S := d.db.ReadTxn()
 	revS := t.Revision(S)
 	qid := vnd.Bytes("qid", L)
